@@ -250,6 +250,7 @@ def check(ctx):
                 for kq in fa.get("p2", []):
                     spec_kinds.setdefault(kq.strip("'\""), set()).update(fa.get("p1", []))
     n147 = 0
+    seen147 = set()
     import re as _re14
     for meth, info in sorted(cur14.items()):
         for lab, fa in info["records"]:
@@ -260,7 +261,9 @@ def check(ctx):
                 for v in fa.get(f_, []):
                     base = v.split("#")[0]
                     holds = {v[4:].split("#")[0]} if v.startswith("new:") else (node_classes(base) if base.startswith("_parse_") and "." not in v and "[" not in v else set())
-                    mk = _re14.fullmatch(r"param:#\d+\[['\"]?(\w+)['\"]?\](\[:\])?", v)
+                    # (a kind of the specifier record, however the record is named: a parameter, or - once the callers' arguments have been followed
+                    # into the builder - the result of the specifier production)
+                    mk = _re14.fullmatch(r"(?:param:#\d+!?|[\w:#+@]+(?:\[\d\])?)\[['\"]?(\w+)['\"]?\](\[:\])?", v)
                     if mk and mk.group(1) in spec_kinds:
                         # the whole list collected under that kind of the specifier record
                         for src in spec_kinds[mk.group(1)]:
@@ -273,7 +276,8 @@ def check(ctx):
                                     base = b2
                     n147 += 1
                     ctx.oblige("R-C14.7", f"{meth}: {cls}.{f_} <- {v}", not holds, nontrivial=True, sample={"rule": "R-C14.7", "method": meth, "attribute": f"{cls}.{f_}", "receives": v, "node classes": sorted(holds)} if holds or n147 % 29 == 0 else None)
-                    if holds:
+                    if holds and f"{cls}.{f_}:{base}" not in seen147:
+                        seen147.add(f"{cls}.{f_}:{base}")
                         ctx.violation("R-C14.7", f"node-in-attribute:{cls}.{f_}:{base}", f"{meth} stores a {sorted(holds)} node in {cls}.{f_}, which _c_ast.cfg declares as a plain attribute: children(), iteration, NodeVisitor.generic_visit and show() "
                                       "do not reach that node (show() prints its multi-line repr as the attribute value)", file="pycparser/c_parser.py", function=f"CParser.{meth}")
     ctx.require_instances("R-C14.7", 40)
